@@ -1869,7 +1869,11 @@ func (t *translator) translate(sp TrFunc) (fo *funcOut) {
 		if lt == "" {
 			fail("receiver type %s", sig.Recv().Type())
 		}
-		params = append(params, fmt.Sprintf("(%s : %s)", leanIdent(c.recv), lt))
+		if c.recv == "" {
+			params = append(params, fmt.Sprintf("(_ : %s)", lt)) // unnamed receiver
+		} else {
+			params = append(params, fmt.Sprintf("(%s : %s)", leanIdent(c.recv), lt))
+		}
 		// is a field of the receiver assigned anywhere?
 		ast.Inspect(fd.Body, func(n ast.Node) bool {
 			var targets []ast.Expr
